@@ -184,7 +184,9 @@ func (c06) Run(c *fw.Ctx) {
 	l := genLayout(r, layoutOpts{maxPoints0: 500})
 	now := genClock(r, l)
 	if now > 1<<31+1<<30 {
-		now = 1500000000 + int64(r.Intn(500000000))
+		if alt := 1500000000 + int64(r.Intn(500000000)); alt >= l.MaxRet()+2*l.MaxStep() {
+			now = alt // (only if the earlier clock is still inside the clock domain of this layout)
+		}
 	}
 	farJump := c.Index%5 == 3
 	if farJump {
@@ -498,7 +500,9 @@ func c06Queued(c *fw.Ctx) bool {
 	l := genLayout(r, layoutOpts{minArch: 1, maxArch: 3, maxPoints0: 3000, multiPage: true, smallRatios: true})
 	now := genClock(r, l)
 	if now > 1<<31 {
-		now = 1500000000 + int64(r.Intn(500000000))
+		if alt := 1500000000 + int64(r.Intn(500000000)); alt >= l.MaxRet()+2*l.MaxStep() {
+			now = alt
+		}
 	}
 	path := filepath.Join(c.TmpDir(), "c06-queued.wsp")
 	a, err := createFile(path, l)
